@@ -23,6 +23,8 @@ HL = "ide::ide::semantic_highlighting::"
 
 
 def run(F, res, tier):
+    from rules import c13 as _c13z
+    _c13z.edits_use_the_current_line_map(F, res, rule="Z13")   # the tokens are computed on the text of the client: every change of a notification is applied with the current line map
     from rules import c14 as _c14u
     _c14u.text_positions_are_counted_in_bytes(F, res, rule="Z12", crates=('ide',))   # engine U: token ranges handed to the encoder are byte ranges
     tags = F.variants(HL + "HlTag")
